@@ -7,6 +7,7 @@ use std::panic;
 mod oracle;
 mod c01;
 mod c04;
+mod c05;
 mod c06;
 mod c07;
 mod c09;
@@ -64,6 +65,7 @@ fn main() {
     let mut fails: Vec<Failure> = Vec::new();
     match prop {
         "C01" => { c01::search(&mut rng, budget, &mut fails); if fails.is_empty() { c06::search(&mut rng, budget / 4, &mut fails); } }
+        "C05" => c05::search(&mut rng, budget, &mut fails),
         "C07" => c07::search(&mut rng, budget, &mut fails),
         "C06" => c06::search(&mut rng, budget, &mut fails),
         "C11" => c11::search(&mut rng, budget, &mut fails),
